@@ -48,14 +48,14 @@ type violRec struct {
 }
 
 type checkStat struct {
-	Evaluations int64            `json:"evaluations"`
-	NonTrivial  int64            `json:"nontrivial"`           // non-trivial evaluations (not distinct)
-	EnumDistinct int64           `json:"enum_distinct"`        // distinct-by-construction non-trivial cases (enumerations)
-	Classes     map[string]int64 `json:"classes,omitempty"`    // histogram
-	Excluded    map[string]int64 `json:"excluded,omitempty"`   // excluded_ambiguous etc.
-	Samples     []any            `json:"samples,omitempty"`    // a few actual cases
-	Exhaustive  []string         `json:"exhaustive,omitempty"` // completed enumerations with bounds
-	Notes       []string         `json:"notes,omitempty"`
+	Evaluations  int64            `json:"evaluations"`
+	NonTrivial   int64            `json:"nontrivial"`           // non-trivial evaluations (not distinct)
+	EnumDistinct int64            `json:"enum_distinct"`        // distinct-by-construction non-trivial cases (enumerations)
+	Classes      map[string]int64 `json:"classes,omitempty"`    // histogram
+	Excluded     map[string]int64 `json:"excluded,omitempty"`   // excluded_ambiguous etc.
+	Samples      []any            `json:"samples,omitempty"`    // a few actual cases
+	Exhaustive   []string         `json:"exhaustive,omitempty"` // completed enumerations with bounds
+	Notes        []string         `json:"notes,omitempty"`
 }
 
 type stats struct {
@@ -75,13 +75,13 @@ type stats struct {
 type knownEntry struct{ prop, sig, text string }
 
 var (
-	mu       sync.Mutex
-	st       stats
-	distinct = map[uint64]struct{}{}
-	known    []knownEntry
-	outDir   string
-	started  time.Time
-	inited   bool
+	mu        sync.Mutex
+	st        stats
+	distinct  = map[uint64]struct{}{}
+	known     []knownEntry
+	outDir    string
+	started   time.Time
+	inited    bool
 	replayers = map[string]func(json.RawMessage) *Verdict{}
 )
 
@@ -181,9 +181,9 @@ func IsKnown(sig string) bool {
 	return false
 }
 
-func Quick() bool    { return st.Tier == "quick" }
-func Thorough() bool { return st.Tier == "thorough" }
-func Seed() int64    { return st.Seed }
+func Quick() bool       { return st.Tier == "quick" }
+func Thorough() bool    { return st.Tier == "thorough" }
+func Seed() int64       { return st.Seed }
 func Shard() (int, int) { return st.Shard, st.Shards }
 
 // N picks a size by tier.
